@@ -49,6 +49,67 @@ def record_history(cfg, ops_list):
     return disk.log, spans, snaps, ok, why, model
 
 
+def record_interleaved(cfg, ops_list, case):
+    """History = prepopulation requests, then 2-3 iterator requests advanced in
+    turns by the seeded scheduler (sim/sched.py) until all are done.  The write
+    log of that whole execution is what gets cut."""
+    from traph.traph_iterator_state import TraphIteratorState
+    from . import sched as S
+
+    default, rules = _rules(cfg)
+    saved = TraphIteratorState.should_yield
+    TraphIteratorState.should_yield = lambda self, yield_frequency=1000: True
+    try:
+        sut, model, why = S.prepopulate(cfg, ops_list)
+        disk = sut.disk
+        if why:
+            return disk.log, [], [], False, why, model
+        n0 = len(disk.log)
+        snap0 = (dict(model.pages), dict(model.links), dict(model.rules_src), model.default_src)
+        specs = S.bind_tasks(case["tasks"], model)
+        tasks = [S.Task(s) for s in specs]
+        for tk in tasks:
+            tk.gen = S.make_generator(sut.traph, tk.spec, model)
+        sch = S.Scheduler(tasks, case.get("policy", {"name": "uniform"}), random.Random(case.get("sched_seed", 0)), explicit=case.get("schedule"), disk=disk)
+        steps = 0
+        while True:
+            tk = sch.pick()
+            if tk is None:
+                break
+            steps += 1
+            if steps > 20000:
+                return disk.log, [], [], False, ("progress", "tasks did not finish"), model
+            mark = len(disk.log)
+            try:
+                st = next(tk.gen)
+                if st.done:
+                    tk.done = True
+            except StopIteration:
+                tk.done = True
+            except Exception as e:
+                return disk.log, [], [], False, ("op_exception", "task %s raised %r" % (tk.id, e)), model
+            sch.schedule.append(tk.id)
+            sch.last = tk.id
+            sch.wrote_last = len(disk.log) > mark
+        m2 = model.copy()
+        for s in specs:
+            k = s["kind"]
+            if k == "batch":
+                m2.batch([(O.dec(a), [O.dec(x) for x in ts]) for a, ts in s["data"]])
+            elif k == "add_page":
+                m2.add_page(O.dec(s["lru"]), s.get("crawled", False))
+            elif k == "add_links":
+                m2.add_links([(O.dec(a), O.dec(b)) for a, b in s["links"]])
+            elif k == "rule":
+                m2.rules_src[O.dec(s["anchor"])] = lrugen.RULES[s["rule"]]
+        sut.close()
+        snap1 = (dict(m2.pages), dict(m2.links), dict(m2.rules_src), m2.default_src)
+        spans = [(0, n0), (n0, len(disk.log))]
+        return disk.log, spans, [snap0, snap1], True, None, m2
+    finally:
+        TraphIteratorState.should_yield = saved
+
+
 def reopen_on(files, default, rules):
     """A new 'process': fresh SimDisk holding only the surviving bytes."""
     d = SimDisk()
@@ -175,11 +236,15 @@ def run_C18(case):
     h = hashlib.sha256()
     try:
         ops_used = list(case["ops"])
-        log, spans, snaps, ok, why, model = record_history(cfg, ops_used)
+        if case.get("tasks"):
+            log, spans, snaps, ok, why, model = record_interleaved(cfg, ops_used, case)
+            res.probes["crash_during_interleaved_requests"] += 1
+        else:
+            log, spans, snaps, ok, why, model = record_history(cfg, ops_used)
         # every cut of the log is enumerated, so the history is shortened (from
         # its end) until its log fits the per-history budget
         cap = case.get("max_events", 700)
-        while ok and len(log) > cap and len(ops_used) > 1:
+        while ok and len(log) > cap and len(ops_used) > 1 and not case.get("tasks"):
             ops_used = ops_used[: max(1, len(ops_used) * 2 // 3)]
             log, spans, snaps, ok, why, model = record_history(cfg, ops_used)
             res.stats["history_shortened_to_fit_cut_budget"] += 1
@@ -222,7 +287,7 @@ def run_C18(case):
             rules = dict(snaps[i - 1][2]) if i >= 1 else {}
             rules.update(rules_after)
             files = SimDisk.state_at(log, k, torn_bytes=j)
-            where = "cut after write event %d/%d%s (during op #%d %s)" % (k, n, "" if j is None else " torn at byte %d" % j, i - 1, case["ops"][i - 1]["op"] if i >= 1 else "<constructor>")
+            where = "cut after write event %d/%d%s (during %s)" % (k, n, "" if j is None else " torn at byte %d" % j, ("the interleaved requests" if case.get("tasks") else "op #%d %s" % (i - 1, case["ops"][i - 1]["op"])) if i >= 1 else "<constructor / prepopulation>")
             res.stats["crash_states"] += 1
             if j is None:
                 res.stats["cuts_block"] += 1
@@ -258,7 +323,7 @@ def run_C18(case):
             finally:
                 t.close()
         # in-line crashes: real unwinding must leave exactly the reconstructed bytes
-        inline = case.get("inline", [])
+        inline = case.get("inline", []) if not case.get("tasks") else []
         for frac, torn in inline:
             if n < 2:
                 break
@@ -304,6 +369,17 @@ def run_C18(case):
 
 
 def gen_C18(rng, tier, seed):
+    if rng.random() < 0.2:
+        # crash while several iterator requests are in flight
+        from . import sched as S
+
+        c = S.gen_C16_focused(rng, tier, seed) if rng.random() < 0.5 else S.gen_C16(rng, tier, seed)
+        c["prop"] = "C18"
+        c["ops"] = [o for o in c["ops"] if o["op"] != "clear"][:8]
+        c["tasks"] = [t for t in c["tasks"] if t["kind"] in ("batch", "rule", "add_page", "add_links")]
+        if c["tasks"]:
+            c["inline"] = []
+            return c
     g = Gen(rng, "C18", tier, allow_restart=False, nops=rng.choice([1, 2, 3, 4, 6, 8, 12] if tier == "quick" else [2, 4, 6, 8, 12, 16, 24, 30]))
     g.pool_size = min(g.pool_size, 12)
     c = g.case(seed)
